@@ -34,7 +34,7 @@ pub open spec fn keys_of(s: Seq<E>) -> Seq<K> { s.map(|i: int, e: E| e.0) }
        # ... and with the NEW cost ("re-admitting a key updates its cost")
        "cost_of(%s, *key) == cost" % NEW,
      ],
-     "splices": [{"before": "AdmissionDecision::Admit // FIFO always admits.", "insert": [
+     "splices": [{"before_tail": True, "insert": [
        "proof {",
        "  let o = old(self).list.view(); let k = *key;",
        "  lemma_without_keys(o, k); lemma_without_cost(o, k); lemma_cons((k, cost), without(o, k));",
@@ -48,7 +48,7 @@ pub open spec fn keys_of(s: Seq<E>) -> Seq<K> { s.map(|i: int, e: E| e.0) }
        "!has_key(%s, *key)" % NEW,
        frame_others(OLD, NEW, "*key"),
      ],
-     "splices": [{"after": "self.list.lock().remove(key);", "insert": [
+     "splices": [{"at_end": True, "insert": [
        "proof { let o = old(self).list.view(); lemma_without_keys(o, *key); lemma_without_cost(o, *key); }"]}],
      "obligation": {"id": "policy.v.fifo.on_remove", "props": ["C14"], "bound": "unbounded"}},
     {"kind": "fn", "name": "evict", "impl": IMPL,
